@@ -53,6 +53,11 @@ CHECKS = {
   "design_ref": "DESIGN.md section 3 C20",
   "note": TRUST + " A process death is simulated by panicking out of the hook (for a torn write after writing half of the pending bytes); durability of completed writes and renames is assumed. The stash file is not covered yet.",
   "technique": "TLA+ model with crash actions checked by TLC (invariants), its behaviours replayed into the code through build-tag hooks, TLA+ trace acceptor"},
+ "C16": {
+  "text": "Trace validation of logged relations plus model-generated table histories: the harness evaluates eq / eql / equal / equalp / sxhash / type-of / typep / subtypep / find-class / coerce over a universe of 35 objects (equal numbers in different representations, zeros and negatives, bignums and ratios built twice, strings and characters differing in case, symbols, nested lists, vectors) and 22 type names and logs the matrices, every call that signals, and the key identity a fresh table implements; EqHash.tla states the laws of the property over those matrices (totality, implication chain, reflexive / symmetric / transitive, equal => same sxhash, typep of own type-of, subtypep reflexive / transitive / agrees with typep on registry-known types, coerce returns the requested type, table key identity covers the table test) and TLC evaluates them, printing the violating tuples. HashGen.tla is the finite-map model: TLC emits one put / get / rem / clr / maphash history per transition of its bounded graph plus random walks of 12; each is executed on 7 key sets x 4 :test values and every step (value, presence, count, maphash contents) is judged by the TLA+ acceptor.",
+  "design_ref": "DESIGN.md section 3 C16",
+  "note": TRUST + " slip documents :test as ignored (always eql); the acceptor judges the map mechanics modulo the key identity the table implements and the law 'key identity covers eql' separately, so the four open findings (exact violating tuples committed; any other tuple is a violation) do not hide other defects.",
+  "technique": "TLA+ laws evaluated by TLC over logged relation matrices (trace validation) + TLC-generated table histories replayed into the code and judged by a TLA+ finite-map acceptor"},
  "C10": {
   "text": "Model-based conformance: Generic.tla is the reference (method table -> effective method) together with an implementation-shaped cache/fast-path model whose coherence TLC checks as invariants; TLC emits one defmethod/replace/remove-method/call history per transition of the bounded state graph (VIEW includes a ghost of the cache so call-before-definition paths are distinct states) plus random walks; every history is executed against slip built from /repo and every call's method trace is compared with the trace TLC computed.",
   "design_ref": "DESIGN.md section 3 C10",
